@@ -835,7 +835,7 @@ def overlap_add(blk_sig, size=None, hop=None, wnd=None, normalize=True):
   # Normalization to the [-1; 1] range
   if normalize:
     if wnd:
-      steps = Stream(wnd).map(abs).blocks(hop).map(tuple)
+      steps = Stream(wnd).map(abs).blocks(hop, padval=0).map(tuple)
       gain = max(xmap(sum, xzip(*steps)))
       if gain: # If gain is zero, normalization couldn't have any effect
         wnd[:] = (w / gain for w in wnd)
